@@ -10,7 +10,7 @@ import itertools
 
 from .. import grammar as G
 from .. import refsem as R
-from ..common import new_result, viol
+from ..common import new_result, run_limited, viol
 
 ANCHORS = ["src/gbigsmiles/token.py", "src/gbigsmiles/bond.py", "src/gbigsmiles/stochastic.py", "src/gbigsmiles/molecule.py", "src/gbigsmiles/system.py", "src/gbigsmiles/distribution.py", "src/gbigsmiles/mixture.py", "src/gbigsmiles/atom.py"]
 LEVEL_RULE = (
@@ -107,6 +107,7 @@ def enumerate_cases(tier, seed):
     step = 150
     for lo in range(0, len(specs), step):
         yield ("higher", {"tier": tier, "seed": seed, "lo": lo, "hi": lo + step})
+    yield ("numbers", {})
 
 
 # ------------------------------------------------------------------ comparisons
@@ -332,9 +333,78 @@ def eval_higher(res, data):
         res["sample"] = {"higher": G.print_sto_fmt(specs[0][1], fmts[0]) if specs[0][0] == "sto" else G.print_spec_fmt(specs[0][1], fmts[0])}
 
 
+def eval_numbers(res):
+    """every numeric slot x every number text of the menu: the parsed value is exactly the number written"""
+    import gbigsmiles
+
+    from ..scripted import ScriptedGenerator
+
+    P = {"desc": lambda s: gbigsmiles.BondDescriptor(s, 0, "", 0), "sto": lambda s: gbigsmiles.Stochastic(s, 0), "sys": gbigsmiles.System}
+    for level, lst in G.number_strings().items():
+        for (s, slot, n) in lst:
+            exp = float(n)
+            st, o = run_limited(P[level], (s,), 20)
+            res["traces"] += 1
+            res["states"] += 1
+            if st != "ok":
+                viol(res, f"C02|number-rejected|{slot.split(':')[0]}", f"{level} {s!r} is rejected: {o}", {"text": s})
+                continue
+            got = None
+            if slot == "weight":
+                got = [("weight", float(o.weight), exp)]
+            elif slot == "list-entry":
+                got = [("first list entry", float(o.transitions[0]), exp), ("list total", float(o.weight), exp + 1.5)]
+            elif slot == "weight-in-object":
+                got = [("weight", float(o.repeat_tokens[0].bond_descriptors[0].weight), exp)]
+            elif slot == "absolute-mass":
+                got = [("absolute mass", float(o._molecules[0].mixture.absolute_mass), exp)]
+            elif slot == "percent":
+                got = [("percentage", float(o._molecules[0].mixture.relative_mass), exp)]
+            elif slot == "absolute-mass-2":
+                got = [("absolute mass", float(o._molecules[1].mixture.absolute_mass), exp)]
+            elif slot.startswith("dist:"):
+                tpl = slot[5:]
+                fam = tpl.split("(")[0]
+                args = [a.strip() for a in tpl[tpl.index("(") + 1 : -1].split(",")]
+                want = [exp if a == "{0}" else float(a) for a in args]
+                if fam == "uniform":
+                    want = [float(int(x)) for x in want]  # documented as integer bounds
+                dn = dist_numbers(o.distribution)
+                if dn is None or dn[0] != fam or len(dn[1]) != len(want):
+                    viol(res, f"C02|number-dist-form|{fam}", f"{s!r}: distribution reads back as {o.distribution}", {"text": s})
+                    continue
+                got = [(f"{fam} parameter {i + 1}", dn[1][i], want[i]) for i in range(len(want))]
+                # what the draw asks of the generator (the parameters in use, not only the printed ones)
+                if fam == "uniform":
+                    for u, k in ((0.0, 0), (1.0, 1)):
+                        rng = ScriptedGenerator((), menu=(u,))
+                        stt, v = run_limited(o.distribution.draw_mw, (rng,), 10)
+                        res["transitions"] += 1
+                        if stt == "ok":
+                            got += [(f"uniform draw at quantile {u:g}", float(v), want[k])]
+                if fam in ("gauss", "poisson"):
+                    rng = ScriptedGenerator((), menu=(0.5,))
+                    stt, v = run_limited(o.distribution.draw_mw, (rng,), 10)
+                    res["transitions"] += 1
+                    if stt == "ok" and rng.points:
+                        info = rng.points[0].info or {}
+                        if fam == "poisson" and "lam" in info:
+                            got += [("poisson mean requested at the generator", info["lam"], want[0])]
+                        if fam == "gauss":
+                            got += [("gauss draw at the median", float(v), want[0])]
+            for (name, a, b) in got or []:
+                res["transitions"] += 1
+                if a != b and not (abs(a - b) <= 1e-12 * max(1.0, abs(b))):
+                    viol(res, f"C02|number-value|{slot.split(':')[0]}", f"{level} {s!r}: {name} is {a!r}, written {n} denotes {b!r}", {"text": s})
+    res["nontrivial"] = "numbers"
+    res["sample"] = {"numbers": len(G.NUMBER_TEXTS), "slots": 17}
+
+
 def eval_case(kind, data):
     res = new_result()
-    if kind == "tokens":
+    if kind == "numbers":
+        eval_numbers(res)
+    elif kind == "tokens":
         eval_tokens(res, data["tokens"])
     else:
         eval_higher(res, data)
